@@ -475,6 +475,8 @@ type FuncContract struct {
 	Lets     []Param // let name = expr (Type holds the expression source)
 	CallUpdates []CallUpdate // call NAME update G = expr
 	CallAsserts []CallAssert // call NAME assert [tags] expr
+	ReturnEnsures []Clause // return-ensures [tags] expr: at every return where the clause's local names are in scope (at least one)
+	UpdateAsserts []CallAssert // mapupdate FIELD assert [tags] expr: before every update of the map held in field FIELD (key, value bound)
 	Ghosts   []Param // ghost name type
 	Inits    []GhostUpdate
 }
@@ -501,7 +503,7 @@ func NewContractSet() *ContractSet {
 }
 
 var clauseKeywords = map[string]bool{"pred": true, "func": true, "requires": true, "ensures": true, "loop": true,
-	"modifies": true, "ufunc": true, "axiom": true, "lemma": true, "noframe": true, "opaque": true, "reveal": true, "uses": true, "protect": true, "protocol-only": true, "deterministic": true, "concurrent": true, "bag": true, "group": true, "include": true, "end": true, "trusted": true, "pure": true, "safe": true, "decreases": true, "let": true, "ghost": true, "init": true, "call": true, "package": true}
+	"modifies": true, "ufunc": true, "axiom": true, "lemma": true, "noframe": true, "opaque": true, "reveal": true, "uses": true, "protect": true, "protocol-only": true, "deterministic": true, "concurrent": true, "bag": true, "group": true, "include": true, "end": true, "trusted": true, "pure": true, "safe": true, "decreases": true, "let": true, "ghost": true, "init": true, "call": true, "mapupdate": true, "return-ensures": true, "package": true}
 
 // ParseContractFile reads the //@ lines of one file.
 func (cs *ContractSet) ParseContractFile(path, pkgPath string) error {
@@ -742,6 +744,22 @@ func (cs *ContractSet) ParseContractFile(path, pkgPath string) error {
 					return fmt.Errorf("%s:%d: ghost NAME TYPE", path, it.n)
 				}
 				cur.Ghosts = append(cur.Ghosts, Param{fields[1], strings.Join(fields[2:], "")})
+			case "return-ensures":
+				c, err := mk(rest)
+				if err != nil {
+					return err
+				}
+				cur.ReturnEnsures = append(cur.ReturnEnsures, c)
+			case "mapupdate":
+				ka := strings.Index(rest, " assert ")
+				if ka < 0 {
+					return fmt.Errorf("%s:%d: mapupdate FIELD assert expr", path, it.n)
+				}
+				c, err := mk(rest[ka+len(" assert "):])
+				if err != nil {
+					return err
+				}
+				cur.UpdateAsserts = append(cur.UpdateAsserts, CallAssert{strings.TrimSpace(rest[:ka]), c})
 			case "call":
 				// call NAME update G = expr
 				if ka := strings.Index(rest, " assert "); ka >= 0 && !strings.Contains(rest[:ka], " update ") {
@@ -894,6 +912,10 @@ func (cs *ContractSet) finalize() {
 		for i := range fc.CallAsserts {
 			all = append(all, &fc.CallAsserts[i].Clause)
 		}
+		for i := range fc.UpdateAsserts {
+			all = append(all, &fc.UpdateAsserts[i].Clause)
+		}
+		add(fc.ReturnEnsures)
 		for _, l := range fc.Loops {
 			add(l.Invariants)
 			add(l.Modifies)
